@@ -650,12 +650,14 @@ def main():
                   "histories (one process): every refused writer {PasswdUpdatePasswd, PasswdUpdateEmail, SetUMoney, PasswdUpdate} x {ENOSPC on a full device, EFBIG under RLIMIT_FSIZE 0} followed by every kind of write "
                   "{the same four, PasswdUpdateUserLevel2}, then PRNG histories of 2-8 steps over uids {1,2,3,4,7,MAX,invalid}; types.BinaryWrite histories to writers refusing after 0/k bytes, /dev/full-like device, read-only and closed handles; "
                   "AppendRecord(.post) after refused writes; whole file images compared byte for byte with a reference written in the check; "
+                  "restarts: histories of 1-5 runs of cache.NewSHM (isCreate or attach) in production mode over one private key, in both builds, from {no segment, own left-over segment, foreign Size stamp +-4..3484 / other build's / 0 / -1 / PRNG, foreign Version, smaller/larger allocation, the other build's whole segment} x SHMALIGNEDSIZE {1 MB, 0, 4096, 64 KB, 4 MB}; every byte of the segment compared with a snapshot taken before each NewSHM; "
                   "a case is non-trivial if it is a distinct (build, type) layout, a distinct record value, or a distinct accepted update",
              assumptions=["encoding/binary, reflect and the gc layout (unsafe.Sizeof/Offsetof) are observed through the compiled driver, not verified",
                           "the docker build is used for layout only (MAX_USERS = 2 000 000 makes .PASSWDS 1 GB); dynamic cases run on the default build",
                           "coq/Model/C01_Frozen.v was transcribed from DESIGN.md Appendix C (pttbbs pttstruct.h), no C header is available offline",
                           "histories: a refused write is one of which nothing reaches the file (ENOSPC on a private character device 1:7 created by the driver - the shared /dev/full only if it still is that device -, EFBIG under RLIMIT_FSIZE 0 with SIGXFSZ ignored, EBADF on read-only/closed handles); a write torn inside a regular file is C05's subject and appears here only as a writer with room for k bytes",
                           "histories: the level-2 update's own BinaryWrite calls cannot be made to fail in the sandbox (on a full device its zero-fill write fails first; root ignores file modes), so PasswdUpdateUserLevel2 is exercised AFTER refused writes but never as the refused write",
+                          "restarts: theorem (C01_restart_*) covers NewSHM's decision over the abstract left-over segment; that no byte of an existing segment is written and that shmget refuses a smaller segment are validated on planted segments through a second attachment (the other configuration's segment is planted by the driver with that configuration's stamps and allocation, not produced by the other binary); runs are sequential in one process, a detach stands for the process exit; no verdict depends on time",
                           "histories: the driver runs a pinned history on one P with the collector off so that state kept between calls (package variable, sync.Pool) is met again; verdicts come from byte comparison only. An UpdateTS that lies inside the history's own start/end second is reported as the `now` of the case line (the clock is an input)"])
 
 
